@@ -127,6 +127,8 @@ def corr(ctx, binary, n):
     ctx.log("correspondence: %d + %d (Baum-Welch) + %d (round 3: vector normal, products, negative binomial, logistic regression, "
             "normal-mixture EM) cases in %d shards (+%d exp-table certificates, %d gradient certificates), %d mismatching, %d known" % (
         len(cases), len(cases2), len(cases3), len(shards) + len(shards2) + len(shards3), len(certs), len(grads), len(bad), len(known)))
+    for c in bad[:12]:
+        ctx.log("  mismatching case: %s" % c.get("tag", c.get("kind")))
     return bad, known
 
 
